@@ -570,3 +570,112 @@ def tok_8(ctx, rep):
                % (len(cons), n_terms[0], len(seen)), True)
     if len(cons) < 15 or n_terms[0] < 25:
         raise AnalysisError('TOK-8: too few token constructions / terms analysed (%d / %d)' % (len(cons), n_terms[0]))
+
+
+# ---------------------------------------------------------------------------
+# TOK-9 : the line cut and the f-string closer range over the same stack entries
+# ---------------------------------------------------------------------------
+def _quote_domain(fn_node, stack_names):
+    """How the function ranges over the f-string stack where it reads ``.quote``:
+    'all' (loop over the stack), 'top' (stack[-1]) or None when it does not read quotes at all."""
+    loop_vars, top_vars = set(), set()
+    for n in walk_own(fn_node):
+        if isinstance(n, ast.For):
+            it = n.iter
+            idx = None
+            if isinstance(it, ast.Call) and isinstance(it.func, ast.Name) and it.func.id in ('enumerate', 'reversed') and it.args:
+                idx = 1 if it.func.id == 'enumerate' else None
+                it = it.args[0]
+                if isinstance(it, ast.Call) and isinstance(it.func, ast.Name) and it.func.id in ('enumerate', 'reversed', 'list') and it.args:
+                    it = it.args[0]
+            if isinstance(it, ast.Name) and it.id in stack_names:
+                tg = n.target
+                if isinstance(tg, ast.Tuple) and idx is not None and len(tg.elts) == 2:
+                    tg = tg.elts[1]
+                if isinstance(tg, ast.Name):
+                    loop_vars.add(tg.id)
+        if isinstance(n, ast.Assign) and len(n.targets) == 1 and isinstance(n.targets[0], ast.Name) \
+                and isinstance(n.value, ast.Subscript) and isinstance(n.value.value, ast.Name) and n.value.value.id in stack_names \
+                and norm(n.value.slice) == '-1':
+            top_vars.add(n.targets[0].id)
+    for _ in range(3):       # plain aliases of either kind
+        for n in walk_own(fn_node):
+            if isinstance(n, ast.Assign) and len(n.targets) == 1 and isinstance(n.targets[0], ast.Name) \
+                    and isinstance(n.value, ast.Name):
+                if n.value.id in loop_vars:
+                    loop_vars.add(n.targets[0].id)
+                if n.value.id in top_vars:
+                    top_vars.add(n.targets[0].id)
+    doms = set()
+    for n in walk_own(fn_node):
+        if isinstance(n, ast.Attribute) and n.attr == 'quote' and isinstance(n.ctx, ast.Load):
+            v = n.value
+            if isinstance(v, ast.Name) and v.id in loop_vars:
+                doms.add('all')
+            elif isinstance(v, ast.Name) and v.id in top_vars:
+                doms.add('top')
+            elif isinstance(v, ast.Subscript) and isinstance(v.value, ast.Name) and v.value.id in stack_names and norm(v.slice) == '-1':
+                doms.add('top')
+            else:
+                doms.add('other')
+    return doms
+
+
+def tok_9(ctx, rep):
+    rep.rule('TOK-9', 'inside f-strings the scanned line is cut at the closing quote of the stack entries the cut loop ranges '
+                      'over; the closer that turns such a quote into FSTRING_END ranges over at least the same entries '
+                      '(otherwise the scan stops in front of a quote nothing consumes: empty match, assertion, no progress)')
+    mod = ctx.prog.mod(TOK)
+    tl = mod.funcs.get('tokenize_lines')
+    if tl is None:
+        raise AnalysisError('anchor vanished: tokenize_lines')
+    # the closer: the function that constructs the FSTRING_END token
+    closers = [f for (f, call, fields) in token_constructions(ctx, TOK)
+               if 'type' in fields and norm(fields['type']) == 'FSTRING_END']
+    closers = list({f.key: f for f in closers}.values())
+    if len(closers) != 1:
+        raise AnalysisError('TOK-9: expected one function constructing FSTRING_END, found %d' % len(closers))
+    closer = closers[0]
+    # the stack variable: first argument of the call of the closer in tokenize_lines
+    stack = None
+    for n in walk_own(tl.node):
+        if isinstance(n, ast.Call) and isinstance(n.func, ast.Name) and n.func.id == closer.name and n.args \
+                and isinstance(n.args[0], ast.Name):
+            stack = n.args[0].id
+    if closer is tl:
+        raise AnalysisError('TOK-9: FSTRING_END is constructed inside tokenize_lines itself (shape not modelled)')
+    if stack is None:
+        raise AnalysisError('TOK-9: call of %s in tokenize_lines not found' % closer.name)
+    # the cut: the loop in tokenize_lines that shortens the text handed to the pseudo-token match
+    scanned = set()
+    for n in walk_own(tl.node):
+        if isinstance(n, ast.Call) and isinstance(n.func, ast.Attribute) and n.func.attr == 'match' \
+                and norm(n.func.value) == 'pseudo_token' and n.args and isinstance(n.args[0], ast.Name):
+            scanned.add(n.args[0].id)
+    cut_loops = []
+    for n in walk_own(tl.node):
+        if isinstance(n, ast.For) and any(isinstance(x, ast.Assign) and any(isinstance(t, ast.Name) and t.id in scanned and t.id != 'line'
+                                                                          for t in x.targets) for x in ast.walk(n)):
+            cut_loops.append(n)
+    cut_dom = set()
+    if cut_loops:
+        fake = ast.FunctionDef(name='_', args=ast.arguments(posonlyargs=[], args=[], kwonlyargs=[], kw_defaults=[], defaults=[]),
+                               body=cut_loops, decorator_list=[])
+        cut_dom = _quote_domain(fake, {stack})
+    else:
+        # no loop: a cut that reads the top entry's quote directly
+        for x in walk_own(tl.node):
+            if isinstance(x, ast.Assign) and any(isinstance(t, ast.Name) and t.id in scanned and t.id != 'line' for t in x.targets) \
+                    and not isinstance(x.value, ast.Name):
+                cut_dom.add('top')
+    close_dom = _quote_domain(closer.node, {closer.params()[0]})
+    if not close_dom:
+        raise AnalysisError('TOK-9: %s does not read the quote of a stack entry' % closer.name)
+    if 'other' in cut_dom or 'other' in close_dom:
+        raise AnalysisError('TOK-9: a quote is read off something that is neither the loop variable nor the top of the stack')
+    ok = not ('all' in cut_dom and 'all' not in close_dom)
+    rep.ob('TOK-9', TOK, closer.qual, 'closer ranges over %s; line cut ranges over %s'
+           % ('/'.join(sorted(close_dom)), '/'.join(sorted(cut_dom)) or 'nothing'), ok,
+           'the scanned line is cut at the quote of every open f-string, but only the innermost one can be closed: after a '
+           'cut at an outer quote the pseudo-token match is empty (assert / no progress) and parsing raises')
+    rep.minimum('TOK-9', 1)
